@@ -84,6 +84,9 @@ Fixpoint json_marshal_at (fuel : nat) (v : value) (t : ty) : res jv :=
   end.
 Definition json_marshal (v : value) (t : ty) : res jv := json_marshal_at (S (psize (vp v)) + ty_size t + ty_size (vty v)) v t.
 
+(* CanListVal / CanSetVal / CanMapVal: the members can be coalesced into one collection *)
+Definition can_coll (vs : list value) : bool := match unify_elem_ty TDyn (map vty vs) with Some _ => true | None => false end.
+
 (* ---------------- Unmarshal ---------------- *)
 Fixpoint jv_size (j : jv) : nat :=
   match j with
@@ -157,7 +160,7 @@ Fixpoint json_unmarshal_at (norm : str -> str) (fuel : nat) (j : jv) (t : ty) : 
           | JArr l =>
               do vs <- (fix go (l : list jv) : res (list value) :=
                           match l with [] => Ok [] | x :: l' => do v <- json_unmarshal_at norm f x e; do r <- go l'; Ok (v :: r) end) l;
-              match vs with [] => Ok (V (TList e) (PSeq [])) | _ => list_val vs end
+              match vs with [] => Ok (V (TList e) (PSeq [])) | _ => if can_coll vs then list_val vs else Err OtherError end
           | _ => Err OtherError
           end
       | TSet e =>
@@ -165,7 +168,7 @@ Fixpoint json_unmarshal_at (norm : str -> str) (fuel : nat) (j : jv) (t : ty) : 
           | JArr l =>
               do vs <- (fix go (l : list jv) : res (list value) :=
                           match l with [] => Ok [] | x :: l' => do v <- json_unmarshal_at norm f x e; do r <- go l'; Ok (v :: r) end) l;
-              match vs with [] => Ok (V (TSet e) (PSet [])) | _ => set_val vs end
+              match vs with [] => Ok (V (TSet e) (PSet [])) | _ => if can_coll (map (fun v => fst (unmark_deep v)) vs) then set_val vs else Err OtherError end
           | _ => Err OtherError
           end
       | TMap e =>
@@ -173,7 +176,7 @@ Fixpoint json_unmarshal_at (norm : str -> str) (fuel : nat) (j : jv) (t : ty) : 
           | JObj m =>
               do kvs <- (fix go (l : list (str * jv)) : res (list (str * value)) :=
                            match l with [] => Ok [] | kv :: l' => do v <- json_unmarshal_at norm f (snd kv) e; do r <- go l'; Ok ((fst kv, v) :: r) end) m;
-              match kvs with [] => Ok (V (TMap e) (PMap [])) | _ => map_val norm kvs end
+              match kvs with [] => Ok (V (TMap e) (PMap [])) | _ => if can_coll (map snd kvs) then map_val norm kvs else Err OtherError end
           | _ => Err OtherError
           end
       | TTuple es =>
